@@ -85,6 +85,8 @@ pub struct RunCfg {
     pub twin_same_timing: bool,
     /// twin scripts: the application's polls give up after this long (0 = never)
     pub twin_poll_budget_us: u64,
+    /// twin scripts: Receive Maximum of every CONNACK (0 = none)
+    pub twin_receive_max: u16,
     /// writes/flushes never stall or fail; used by timing profiles
     pub zero_time_io: bool,
     // broker policy (per mille)
@@ -943,7 +945,11 @@ impl World {
         // C01: while the stream is inside a packet, the next offer must continue that packet.
         if let Some(rem) = self.conns[conn].pending_offer.clone() {
             let c = &self.conns[conn];
-            if c.parsed != c.wire.len() && !(rem.starts_with(buf) || buf.starts_with(&rem)) {
+            // (after a cancelled disconnect() the client has no record of the half-written
+            // DISCONNECT: whatever another operation writes now is foreign to it, also when its
+            // first bytes happen to equal the missing ones)
+            let foreign = c.disconnect_cancelled && c.parsed != c.wire.len() && c.wire[c.parsed] >> 4 == 14 && self.op_label != "disconnect";
+            if c.parsed != c.wire.len() && (foreign || !(rem.starts_with(buf) || buf.starts_with(&rem))) {
                 let inside = crate::codec::type_name_of(c.wire[c.parsed] >> 4);
                 let first = c.wire[c.parsed];
                 let newp = crate::codec::type_name_of(buf[0] >> 4);
